@@ -82,7 +82,9 @@ class OFX(Aggregate):
     @classmethod
     def validate_args(cls, *args, **kwargs):
         # Don't allow mixed *RQ and *RS in the same OFX
-        if not all_equal(key[-7:] for key in kwargs):
+        if not all_equal(
+            key[-7:] for key, value in kwargs.items() if value is not None
+        ):
             msg = f"{cls.__name__}: mixed *MSGRQV1 and *MSGSRSV1 are invalid"
             raise ValueError(msg)
 
